@@ -29,14 +29,16 @@ int CAT(F, __loop1_body_stub)(struct CAT(F, __loop1_env)* e) { const char* p = *
 int CAT(F, __loop2_body_stub)(struct CAT(F, __loop2_env)* e) { __CPROVER_assert(*e->it == g_next2, "C09: loop 2 visits every remaining character exactly once, in order"); g_next2 = *e->it + 1; g_steps2++; (*e->outputString)->total += 1; return 0; }
 #define VERIF_STEP_WriteEscapedValue__rkvsv_c8_rvstr_c8_kc8__loop1(e) WriteEscapedValue__rkvsv_c8_rvstr_c8_kc8__loop1_body_stub(e)
 #define VERIF_STEP_WriteEscapedValue__rkvsv_c8_rvstr_c8_kc8__loop2(e) WriteEscapedValue__rkvsv_c8_rvstr_c8_kc8__loop2_body_stub(e)
+/* pointer invariants through offsets: relational operators on a havocked pointer would raise a spurious object-bounds check */
+#define PO(p) ((unsigned long)__CPROVER_POINTER_OFFSET(p))
 #define VERIF_LOOP_WriteEscapedValue__rkvsv_c8_rvstr_c8_kc8_1 \
   __CPROVER_assigns(it) \
-  __CPROVER_loop_invariant(__CPROVER_same_object(it, endIt) && it <= endIt && it >= g_data && ((size_t)(it - g_data) <= g_w || !g_special_w)) \
-  __CPROVER_decreases(endIt - it)
+  __CPROVER_loop_invariant(__CPROVER_same_object(it, endIt) && PO(it) <= PO(endIt) && PO(it) >= PO(g_data) && (PO(it) - PO(g_data) <= g_w || !g_special_w)) \
+  __CPROVER_decreases(PO(endIt) - PO(it))
 #define VERIF_LOOP_WriteEscapedValue__rkvsv_c8_rvstr_c8_kc8_2 \
   __CPROVER_assigns(it, g_steps2, g_next2, outputString->total) \
-  __CPROVER_loop_invariant(__CPROVER_same_object(it, endIt) && it <= endIt && g_next2 == it && g_steps2 == (unsigned long)(it - __CPROVER_loop_entry(it))) \
-  __CPROVER_decreases(endIt - it)
+  __CPROVER_loop_invariant(__CPROVER_same_object(it, endIt) && PO(it) <= PO(endIt) && PO(it) >= PO(__CPROVER_loop_entry(it)) && g_next2 == it && g_steps2 == PO(it) - PO(__CPROVER_loop_entry(it))) \
+  __CPROVER_decreases(PO(endIt) - PO(it))
 #endif
 #include "gen.c"
 
